@@ -33,6 +33,11 @@ def plan(ctx):
     for op in ('+', '-', '*', '/', '**', 'neg', '+=', '-=', '*=', '/='):
         obs.append(Obligation(f"digits.operator.{op}", "xh", "c04", "operator_digits", param={"op": op}, timeout=T * 2, bounds=DP,
                               desc=f"real operator {op} on real Decimals: digit bound; context untouched"))
+    from sqv.harness import c04 as h0
+    for op in h0.known_short_ops():
+        obs.append(Obligation(f"digits.item_operator.{op}", "xh", "c04", "item_operator_digits", param={"op": op}, timeout=T * 2,
+                              bounds="item a from 8 host ints (up to 30 digits, incl. a bool), operand from 8 host ints (incl. 5000 and a 31-digit one); list or dict container (finite domain, native); the operator list is whatever compound operators the real lexer tokenises",
+                              desc=f"o[k] {op} v on host numbers: what is left in the container has at most max(28, widest operand + 1) significant digits and nothing is repeated"))
     obs.append(Obligation("digits.power_overflow", "xh", "c04", "power_overflow", timeout=T * 2,
                           bounds="host int bases from 6 values, exponents 2.1 / 3.4 / 4.0 million (result beyond 1E+999999); operator or compound form (finite domain, native)",
                           desc="a power of host ints beyond the decimal range raises an arithmetic error; no exact big integer is produced"))
